@@ -48,6 +48,9 @@ pub enum Call {
     /// inside it) and ticks the other bar - that request reaches the shared limiter first, with the later time
     /// stamp; the outer request follows with the time stamp taken before the closure ran
     NestedUpdate(Gap),
+    /// finish() (a forced frame, not counted) and then reset(): the redraw reset() asks for is an ordinary
+    /// request of a running bar at position 0
+    FinishReset,
 }
 
 #[derive(Debug, Clone, Serialize, Deserialize)]
@@ -148,7 +151,7 @@ fn run_rate(c: &RateCase) -> CaseResult {
         }
         let bi = if c.mode % 4 == 2 { i % 2 } else { 0 };
         let call = &if c.full && matches!(call, Call::Inc | Call::SetPosition | Call::Dec | Call::SetLength | Call::Update) { Call::SetSameLength } else { *call };
-        let before = vt.nflush();
+        let mut before = vt.nflush();
         if let Call::NestedUpdate(inner) = call {
             if bars.len() < 2 {
                 continue;
@@ -240,6 +243,12 @@ fn run_rate(c: &RateCase) -> CaseResult {
                     b.pb.set_position(b.pos);
                 }
                 Call::Reset => b.pb.tick(),
+                Call::FinishReset => {
+                    b.pb.finish();
+                    before = vt.nflush();
+                    b.pb.reset();
+                    b.pos = 0;
+                }
                 Call::Dec => {
                     b.pos = b.pos.saturating_sub(1).max(1);
                     let cur = b.pb.position();
@@ -310,6 +319,7 @@ fn run_rate(c: &RateCase) -> CaseResult {
     v.label_if(c.calls.iter().any(|(g, _)| matches!(g, Gap::Hours(_) | Gap::Secs(_))), "refill_after_long_gap");
     v.label_if(c.mode % 4 != 0, "multi_progress_target");
     v.label_if(c.full, "bar_complete_the_whole_time");
+    v.label_if(c.calls.iter().any(|(_, c)| matches!(c, Call::FinishReset)), "reset_of_a_finished_bar");
     Ok(v)
 }
 
@@ -332,7 +342,7 @@ fn rate_strategy(tier: Tier) -> BoxedStrategy<RateCase> {
     let n = tier.pick(400, 2000);
     let call = prop_oneof![4 => Just(Call::Tick), 2 => Just(Call::SetMessage), 1 => Just(Call::SetLength), 1 => Just(Call::SetSameLength), 3 => Just(Call::Inc), 1 => Just(Call::SetPosition), 1 => Just(Call::Dec)];
     let rate = || prop_oneof![2 => prop_oneof![Just(1u8), Just(3), Just(7), Just(20), Just(30), Just(60), Just(255)], 1 => 1u8..=255];
-    let call = prop_oneof![28 => call, 2 => Just(Call::IncZero), 3 => Just(Call::Update), 1 => Just(Call::SteadyZero), 1 => Just(Call::SteadyOff), 1 => Just(Call::DropDecoy), 3 => gap_strategy().prop_map(Call::NestedUpdate)];
+    let call = prop_oneof![28 => call, 2 => Just(Call::FinishReset), 2 => Just(Call::IncZero), 3 => Just(Call::Update), 1 => Just(Call::SteadyZero), 1 => Just(Call::SteadyOff), 1 => Just(Call::DropDecoy), 3 => gap_strategy().prop_map(Call::NestedUpdate)];
     let free = (rate(), 0u8..4, proptest::collection::vec((gap_strategy(), call.clone()), 30..n), proptest::bool::weighted(0.15)).prop_map(|(rate, mode, calls, full)| RateCase { full, rate, mode, calls });
     // the burst is used up at the creation instant, then requests arrive exactly at, one ns before and
     // one ns after whole refresh intervals (the boundary of "at least one refresh interval after the
@@ -587,6 +597,21 @@ fn run_ticker(c: &TickerCase) -> CaseResult {
         // (400 ms at 20 Hz or more: at least 8 refresh intervals have passed)
         ensure!(n2 >= n1 + 2, "stale_ticker", "finish(), reset(), enable_steady_tick({d:?}) again with the same interval on a {rate} Hz target: {} frame(s) were painted in the following 400 ms", n2 - n1);
     }
+    let slow_ticker_text = c.stall_ms % 2 == 0;
+    if slow_ticker_text {
+        // a ticker with a long period is installed; a text update between two of its ticks is an ordinary
+        // redraw request of its own: several refresh intervals after the last frame it is painted at once
+        pb.set_style(ProgressStyle::with_template("P{pos} {spinner} {msg}").unwrap());
+        pb.enable_steady_tick(Duration::from_secs(120));
+        std::thread::sleep(Duration::from_millis(250));
+        pb.set_message("stage two");
+        let last = term.flushes.lock().unwrap().last().map(|f| f.1.clone()).unwrap_or_default();
+        ensure!(
+            last.contains("stage two"),
+            "stale",
+            "a steady ticker with a period of 120 s is installed on a {rate} Hz target; set_message() 250 ms after the last frame was not painted (the terminal still shows {last:?})"
+        );
+    }
     pb.disable_steady_tick();
     let frames: Vec<std::time::Instant> = term.flushes.lock().unwrap().iter().map(|f| f.0).collect();
     drop(pb);
@@ -616,6 +641,7 @@ fn run_ticker(c: &TickerCase) -> CaseResult {
     v.label_if(c.in_multi, "multi_progress_target");
     v.label_if(c.restart, "ticker_restarted_with_the_same_interval_after_finish_and_reset");
     v.label_if(c.start_hidden, "ticker_started_while_the_bar_was_hidden");
+    v.label_if(slow_ticker_text, "text_update_between_two_ticks_of_a_slow_ticker");
     Ok(v)
 }
 
@@ -696,7 +722,7 @@ pub fn property() -> Property {
                 cases: |t| t.pick(1_500, 48_000),
                 run: run_rate,
                 signature: no_signature,
-                essential: &["skipped_draw", "burst_exhausted", "gap_at_interval_multiple", "refill_after_long_gap", "multi_progress_target"],
+                essential: &["skipped_draw", "burst_exhausted", "gap_at_interval_multiple", "refill_after_long_gap", "multi_progress_target", "reset_of_a_finished_bar"],
                 workers: w,
                 decode: Some(decode_rate),
             }),
@@ -723,7 +749,7 @@ pub fn property() -> Property {
                 cases: |t| t.pick(2, 60),
                 run: run_ticker,
                 signature: no_signature,
-                essential: &["ticker_held_up_then_released", "ticker_restarted_with_the_same_interval_after_finish_and_reset", "ticker_started_while_the_bar_was_hidden"],
+                essential: &["ticker_held_up_then_released", "ticker_restarted_with_the_same_interval_after_finish_and_reset", "ticker_started_while_the_bar_was_hidden", "text_update_between_two_ticks_of_a_slow_ticker"],
                 workers: 6,
                 decode: None,
             }),
